@@ -77,10 +77,12 @@ def vtool_path(features=None):
     raise NotImplementedError
 
 
-def expand_real(cases, repeat=0, exe=None):
-    """cases: list of (id, src). Returns {id: result dict}."""
+def expand_real(cases, repeat=0, exe=None, group=False):
+    """cases: list of (id, src). Returns {id: result dict}. `group`: every definition is expanded three more times with
+    its field types inside None-delimited groups, the way a macro_rules! macro hands `$t:ty` fragments to a derive
+    (result key "group")."""
     exe = exe or vtool_path()
-    lines = [json.dumps({"id": i, "src": s, **({"repeat": repeat} if repeat else {})}) for i, s in cases]
+    lines = [json.dumps({"id": i, "src": s, **({"repeat": repeat} if repeat else {}), **({"group": True} if group else {})}) for i, s in cases]
     # The tool answers line by line; a watchdog notices an input on which the macro hangs or takes the
     # process down (stack overflow), records it as `abort` and restarts after it.
     import threading, queue
@@ -257,6 +259,26 @@ def confirm_panic_with_rustc(src, prelude=""):
     finally:
         import shutil
         shutil.rmtree(d, ignore_errors=True)
+
+
+def grouped_findings(r, src):
+    """What the grouped expansions of one definition (expand_real(.., group=True)) show: (failing, broken) lists.
+    A panic is believed after rustc, given the definition as the output of a macro_rules! macro, reports it too."""
+    failing, broken = [], []
+    for g in r.get("group") or []:
+        if g["outcome"] == "panic" and r["outcome"] != "panic":
+            msrc = g.get("macro_src")
+            if msrc and confirm_panic_with_rustc(msrc):
+                failing.append({"what": "proc-macro derive panicked on a definition whose field types come from `$t:ty` macro fragments",
+                                "rust_source": msrc, "observed": g.get("message"), "expected_spec": "a diagnostic or generated items"})
+            elif not msrc:
+                broken.append("grouped expansion (mode %s) panics in-process: %s" % (g["mode"], str(g.get("message"))[:150]))
+        elif g["outcome"] != r["outcome"]:
+            failing.append({"what": "a definition is %s when written in place but %s when its field types come from `$t:ty` macro fragments"
+                                    % (r["outcome"], g["outcome"]), "rust_source": g.get("macro_src") or src, "observed": g.get("message")})
+        elif not g.get("same_tokens", True):
+            broken.append("a definition expands to different tokens when its field types come from macro fragments (mode %s)" % g["mode"])
+    return failing, broken
 
 
 # ---------------------------------------------------------------------------- input pools
